@@ -281,6 +281,7 @@ func (e *Env) Open(c Config) (*pogreb.DB, error) {
 var (
 	pinnedSeed   atomic.Uint32
 	seedPinned   atomic.Bool
+	pinOnce      atomic.Bool
 	recoverCount atomic.Int64
 	yieldFn      atomic.Pointer[func(db *pogreb.DB, point string)]
 )
@@ -289,6 +290,9 @@ func init() {
 	pogreb.VerifSetHooks(
 		func(s uint32) uint32 {
 			if seedPinned.Load() {
+				if pinOnce.Load() {
+					seedPinned.Store(false)
+				}
 				return pinnedSeed.Load()
 			}
 			return s
@@ -307,7 +311,10 @@ func init() {
 }
 
 // PinSeed pins the hash seed drawn for empty databases (also inside recovery).
-func PinSeed(seed uint32) { pinnedSeed.Store(seed); seedPinned.Store(true) }
+func PinSeed(seed uint32) { pinnedSeed.Store(seed); pinOnce.Store(false); seedPinned.Store(true) }
+
+// PinSeedOnce pins only the next seed that is drawn; later draws are the library's own random seeds.
+func PinSeedOnce(seed uint32) { pinnedSeed.Store(seed); pinOnce.Store(true); seedPinned.Store(true) }
 
 // UnpinSeed restores random seeds.
 func UnpinSeed() { seedPinned.Store(false) }
